@@ -33,6 +33,12 @@ type PageCfg struct {
 	VPage  uint64 `json:"vpage"`
 	PPage  uint64 `json:"ppage"`
 	Device uint64 `json:"device"`
+	// Invalid: the entry is inserted with Valid=false (it still owns its frame).
+	Invalid bool `json:"invalid,omitempty"`
+	// Moved: after the insert the page is updated to physical page MovedTo (a
+	// migrated page), before the run starts.
+	Moved   bool   `json:"moved,omitempty"`
+	MovedTo uint64 `json:"moved_to,omitempty"`
 }
 
 // VOp is one scripted access.
